@@ -1,9 +1,18 @@
 \* C15 - template for every TLC run of IdGen.tla made by the check (harness/drivers/c15 substitutes @@..@@).
-\* Exhaustive runs: Emit = FALSE and the invariants of the configuration; behaviour generation:
-\* Emit = TRUE, one behaviour per (state, action) pair (VIEW view = state without hist).
-\*   quick    gen : Procs p1,p2      NCands 2  MaxAttempts 2  MaxCalls 2   layouts distinct,same
-\*   thorough gen : Procs p1,p2,p3   NCands 3  MaxAttempts 2  MaxCalls 2   layouts distinct,same,mixed
-\*   node         : Procs n1,n2 (n3) NSlots 2  TTLTicks 3     MaxTicks 0 (untimed) | 4 (timed)
+\* Exhaustive runs check the invariants of the configuration (INVS); behaviour generation runs have
+\* Emit = TRUE and print one behaviour per (state, action) pair (VIEW view = state without hist).
+\* In the quick tier the generation runs are the exhaustive runs (Emit = TRUE and INVS together).
+\*   quick    gen : Procs p1,p2     NCands 2  MaxAttempts 2  MaxCalls 2  layouts distinct,same      (SetNX: 3 920 states; fallback: 6 870)
+\*   thorough gen : Procs p1,p2,p3  NCands 3 (fallback 2)  MaxAttempts 2  MaxCalls 2  layouts distinct,same,mixed
+\*                                                                       (SetNX: 1 330 755 states; fallback: 414 980)
+\*            generation also from 2 procs x 3 cands x 3 attempts x 2 calls and 3 procs x 2 cands x 1 call
+\*   node  untimed: Procs n1,n2,n3   NSlots 2  MaxTicks 0   (968 states)
+\*   node  timed  : Procs n1,n2 (thorough exhaustive: n1,n2,n3, MaxTicks 5)  NSlots 2  TTLTicks 3  MaxTicks 4
+\*            RenewTier/Wiring = claim/split (repaired code), local/same (redis mode), local/split (the code as it was)
+\* INVS per configuration: gen+SetNX: Unique HeldDisjoint NoTaken HeldMarked Exhaustion;  gen fallback: NoTaken
+\* Exhaustion FallbackOnlyDeviation;  node: NodeUnique NoForeign ClaimNeverExpiresUnderLiveHolder NoWrongTier;
+\* node as it was: NoForeign NodeOnlyDeviation.   IdGen_show_*.cfg: the same models with the plain property - TLC
+\* finds the duplicate.
 CONSTANTS
   Mode = "@@MODE@@"
   Procs = {@@PROCS@@}
